@@ -122,6 +122,57 @@ def check_trim(db, chk, rule: str) -> None:
     chk.floor(rule, 8)
 
 
+def check_trim_guard(db, chk, rule: str) -> None:
+    """nothing is trimmed unless the trace has at least two profiler steps (also C01: no other row removal on the load path)"""
+    m = db.mod(TM)
+    st = db.mod("hta.common.trace_symbol_table")
+    TR = ("param", "TR")
+    # ------------------------------------------------------------------ guard: fewer than two steps -> nothing dropped
+    ref3 = f"{TM}:Trace._filter_irrelevant_gpu_kernels"
+    f3 = m.func("Trace._filter_irrelevant_gpu_kernels")
+    calls = []
+
+    def hook(I, name, pos, kw, node):
+        if name == "filter_gpu_kernels_for_one_rank":
+            calls.append(I.run)
+            return Frame(("trimmed",))
+        return NotImplemented
+
+    I = Interp(db, call_hook=hook)
+    RK = T.P("RANK")
+    runs = I.explore(ref3, lambda I: {"self": Obj("self", cls=(m, "Trace"), attrs={"traces": {RK: Frame(TR)}, "symbol_table": Obj("symtab", cls=(st, "TraceSymbolTable"))}),
+                                      "include_last_profiler_step": T.P("include_last_profiler_step")})
+    runs = [r for r in runs if r.raised is None]
+    summary = []
+    for r in runs:
+        tr = r.env["self"].attrs["traces"].get(RK)
+        trimmed = isinstance(tr, Frame) and tr.base == ("trimmed",)
+        summary.append((T.show(r.cond())[:200], trimmed))
+    lens = [c for c, t in summary]
+    ok = len(summary) == 3 and sum(1 for c, t in summary if t) == 1
+    # the trimming path must be the one with neither "no steps" nor "exactly one step"
+    trim_conds = [r.path for r, (c, t) in zip(runs, summary) if t]
+    strict = bool(trim_conds) and any(p[0] == "not" and T.find(p, lambda s: s[0] == "cmp" and s[1] == "==") for p in trim_conds[0]) or \
+        (bool(trim_conds) and any(p[0] == "cmp" and p[1] in ("!=", ">", ">=") for p in trim_conds[0]))
+    # evaluate the path conditions on representative step counts 0..3: trimming must happen exactly for counts >= 2
+    table = {}
+    try:
+        for n in (0, 1, 2, 3):
+            def leaf(t, n=n):
+                if t[0] == "len":
+                    return n
+                if t[0] == "truthy":
+                    return n > 0
+                raise T.Unknown(t)
+            hits = [tr for r, (c, tr) in zip(runs, summary) if all(T.evaluate(p_, leaf) for p_ in r.path)]
+            table[n] = hits
+        okt = table == {0: [False], 1: [False], 2: [True], 3: [True]}
+    except T.Unknown as u:
+        okt, table = None, {"unknown": T.show(u.args[0])[:100]}
+    chk.ob(rule, "nothing is trimmed when the symbol table holds no or exactly one ProfilerStep name; otherwise every rank is trimmed", okt, m.loc(f3),
+           found={str(k): v for k, v in table.items()}, accepted={"0": [False], "1": [False], "2": [True], "3": [True]}, why="with two or more steps the trailing (incomplete) step must be trimmed")
+
+
 def run(db, chk) -> None:
     m = db.mod(TM)
     st = db.mod("hta.common.trace_symbol_table")
@@ -188,6 +239,20 @@ def run(db, chk) -> None:
             check_term(chk, "C12.R2-device-rule", "device value = iteration of the row whose id is index_correlation if index_correlation > 0 else -1 (read after the host store)", where, got, [exp],
                        ">= 0 makes an activity whose partner is absent (sentinel 0) inherit the iteration of event 0")
             chk.ob("C12.R2-device-rule", "host store precedes the device store", host["line"] < dev["line"], where, found=[host["line"], dev["line"]], accepted="host first")
+            # later rewrites of the column keep every value: no narrow fixed-width cast (step numbers are unbounded counters)
+            from ..specs.discipline import narrowing_casts, strip_wide_casts
+            later = [e for e in r.events if e["kind"] == "frame-mutation" and e.get("column") == "iteration" and e["what"] == "setcol" and e.get("line", 0) > dev["line"]]
+            fin = r.env["df"].col("iteration") if isinstance(r.env.get("df"), Frame) else None
+            for e in later:
+                t_ = e.get("term")
+                nc = narrowing_casts(t_)
+                base = strip_wide_casts(t_)
+                while isinstance(base, tuple) and base and base[0] == "fillna" and base[2] == T.C(-1):
+                    base = base[1]                   # rule 3 of the docstring: undetermined rows are -1
+                same = base == dev["term"]
+                chk.ob("C12.R2-device-rule", "a later rewrite of the iteration column keeps every value (dtype normalisation only: to_numeric / 64-bit cast / fillna(-1))", False if nc else (True if same else None), where,
+                       found={"narrow casts": nc} if nc else T.show(t_)[:200], accepted="pd.to_numeric(..., downcast='integer') or astype(int64)",
+                       why="profiler step numbers are counters without an upper bound: int16 wraps at 32768 and the iteration no longer equals the step's number")
     chk.floor("C12.R1-host-rule", 6)
     chk.floor("C12.R2-device-rule", 3)
 
@@ -195,50 +260,7 @@ def run(db, chk) -> None:
     TR = ("param", "TR")
     STEPS = T.P("STEPS")
 
-    # ------------------------------------------------------------------ guard: fewer than two steps -> nothing dropped
-    ref3 = f"{TM}:Trace._filter_irrelevant_gpu_kernels"
-    f3 = m.func("Trace._filter_irrelevant_gpu_kernels")
-    calls = []
-
-    def hook(I, name, pos, kw, node):
-        if name == "filter_gpu_kernels_for_one_rank":
-            calls.append(I.run)
-            return Frame(("trimmed",))
-        return NotImplemented
-
-    I = Interp(db, call_hook=hook)
-    RK = T.P("RANK")
-    runs = I.explore(ref3, lambda I: {"self": Obj("self", cls=(m, "Trace"), attrs={"traces": {RK: Frame(TR)}, "symbol_table": Obj("symtab", cls=(st, "TraceSymbolTable"))}),
-                                      "include_last_profiler_step": T.P("include_last_profiler_step")})
-    runs = [r for r in runs if r.raised is None]
-    summary = []
-    for r in runs:
-        tr = r.env["self"].attrs["traces"].get(RK)
-        trimmed = isinstance(tr, Frame) and tr.base == ("trimmed",)
-        summary.append((T.show(r.cond())[:200], trimmed))
-    lens = [c for c, t in summary]
-    ok = len(summary) == 3 and sum(1 for c, t in summary if t) == 1
-    # the trimming path must be the one with neither "no steps" nor "exactly one step"
-    trim_conds = [r.path for r, (c, t) in zip(runs, summary) if t]
-    strict = bool(trim_conds) and any(p[0] == "not" and T.find(p, lambda s: s[0] == "cmp" and s[1] == "==") for p in trim_conds[0]) or \
-        (bool(trim_conds) and any(p[0] == "cmp" and p[1] in ("!=", ">", ">=") for p in trim_conds[0]))
-    # evaluate the path conditions on representative step counts 0..3: trimming must happen exactly for counts >= 2
-    table = {}
-    try:
-        for n in (0, 1, 2, 3):
-            def leaf(t, n=n):
-                if t[0] == "len":
-                    return n
-                if t[0] == "truthy":
-                    return n > 0
-                raise T.Unknown(t)
-            hits = [tr for r, (c, tr) in zip(runs, summary) if all(T.evaluate(p_, leaf) for p_ in r.path)]
-            table[n] = hits
-        okt = table == {0: [False], 1: [False], 2: [True], 3: [True]}
-    except T.Unknown as u:
-        okt, table = None, {"unknown": T.show(u.args[0])[:100]}
-    chk.ob("C12.R3-guard", "nothing is trimmed when the symbol table holds no or exactly one ProfilerStep name; otherwise every rank is trimmed", okt, m.loc(f3),
-           found={str(k): v for k, v in table.items()}, accepted={"0": [False], "1": [False], "2": [True], "3": [True]}, why="with two or more steps the trailing (incomplete) step must be trimmed")
+    check_trim_guard(db, chk, "C12.R3-guard")
     # ------------------------------------------------------------------ R4 end coherence + load order
     check_end_coherence(db, chk, "C12.R4-end-coherence")
     lt = m.func("Trace.load_traces")
